@@ -5,6 +5,8 @@ nonterminal, exactly the declaration's attribute texts in order; `render` prints
 them one per line immediately before the item — `typeDefSrc`, `attrsSrc`)
 -/
 import KikiVerif.Proofs.Emit
+import KikiVerif.Properties.C08
+import KikiVerif.Properties.C09
 
 namespace KikiVerif.C12
 open KikiVerif KikiVerif.Emit
@@ -47,6 +49,20 @@ theorem C12_emit {f : VFile.File} {enc : Encode.Enc} {t : Table.Table} {sha : St
   obtain ⟨_, h2, _, _, _, _, _, h8, _⟩ := moduleOf_spec h
   exact ⟨h2, mapM_attrs _ _ _ h8⟩
 
+/-- **C12, token**: the attribute token is exactly what the scanner specification delimits — `#[` followed by
+the text up to the bracket that closes the initial `[` (bracket *stack*, any characters except newline) —
+because the tokenizer equals that specification on every source text -/
+theorem C12_token (src : Str) : Tokenize.tokenize src = Spec.scan src := C08.C08_tokenize_eq_spec src
+
+/-- **C12, order**: the attributes of every declaration reach the AST in source order (`unFile` prints them, in
+list order, in front of their declaration; the printed sequence equals the input tokens) -/
+theorem C12_order (toks : List Token) (fuel : Nat) (t : FrontParse.CTree)
+    (h : FrontParse.parse toks fuel = some (.ok t)) :
+    ∃ ast, FrontParse.cstToAst t = some ast ∧ Spec.unFile ast = toks.map Spec.erase :=
+  C09.C09_flatten toks fuel t h
+
 end KikiVerif.C12
 
 #print axioms KikiVerif.C12.C12_emit
+#print axioms KikiVerif.C12.C12_token
+#print axioms KikiVerif.C12.C12_order
